@@ -235,3 +235,16 @@ CLAIMS["C35"] = (
     "6/C35", TRUSTED + "; only assumption forms the Assumptions class understands (Contains in a number set, "
     "comparisons of one symbol with a number) are generated",
     "TLA+ denotational semantics + assumption-indexed environments + TLC trace validation")
+
+CLAIMS["C34"] = (
+    "model_checking",
+    "TLC enumerates 34 number expressions and ~190 symbolic expressions (arithmetic, powers, 17 functions, max/min) "
+    "under 12 assumption sets; the 17 tribool queries and is_polynomial (three variable sets) are recorded and TLC "
+    "validates every definite answer against the three-valued truth of the property on the value of the expression "
+    "(exact part, residues, polar form) at every assignment of the environment set attached to the assumption set, "
+    "all of whose assignments satisfy it; is_polynomial is validated in both directions against the structural "
+    "definition evaluated on the dump",
+    "6/C34", TRUSTED + "; the number-theoretic classification of floating-point values (is 3.0 an integer?) is a "
+    "convention and not decided; truth is 'unknown' wherever the value domain cannot decide (e.g. algebraicity of "
+    "sin(1))",
+    "TLA+ three-valued property semantics on the value domain + TLC trace validation")
